@@ -111,11 +111,13 @@ def _minv(a: Mono) -> Mono:
 
 
 class Poly:
-    __slots__ = ("t", "_h")
+    __slots__ = ("t", "_h", "_content", "_canon")
 
     def __init__(self, terms: Dict[Mono, Q]):
         self.t = terms
         self._h = None
+        self._content = None
+        self._canon = False
 
     @staticmethod
     def const(c) -> "Poly":
@@ -224,6 +226,13 @@ class Poly:
     def content(self):
         """(c, mono, prim) with self = c*mono*prim, prim has min exponents 0 per atom and
         coefficient content 1 (positive gcd)."""
+        if self._content is not None:
+            return self._content
+        r = self._content_compute()
+        self._content = r
+        return r
+
+    def _content_compute(self):
         if not self.t:
             return Q(0), ONE_M, self
         allat = self.atoms()
@@ -309,7 +318,7 @@ def try_divide(num: Poly, den: Poly, limit=4000):
 
 
 class RF:
-    __slots__ = ("n", "d", "_h")
+    __slots__ = ("n", "d", "_h", "_inv")
     __array_priority__ = 1000
 
     def __init__(self, n: Poly, d: Poly = ONE_P, _norm=True):
@@ -318,6 +327,7 @@ class RF:
         self.n = n
         self.d = d
         self._h = None
+        self._inv = None
 
     # --- construction helpers
     @staticmethod
@@ -409,9 +419,13 @@ class RF:
     def inv(self):
         if self.n.is_zero():
             raise ZeroDivisionError("symbolic division by syntactic zero")
+        if self._inv is not None:
+            return self._inv
         if not self.is_const():
             SIDE.append(("nonzero", self))
-        return RF(self.d, self.n)
+        r = RF(self.d, self.n)
+        self._inv = r
+        return r
 
     def __truediv__(self, o):
         o = as_rf(o)
@@ -534,6 +548,12 @@ def _normalise(n: Poly, d: Poly):
         return n.mul_mono(_minv(m), 1 / c), ONE_P
     if n == d:
         return ONE_P, ONE_P
+    if d._canon:
+        if len(n.t) >= len(d.t):
+            q = try_divide(n, d)
+            if q is not None:
+                return q, ONE_P
+        return n, d
     # make denominator primitive, move its content to numerator
     c, m, prim = d.content()
     # sign: make leading coefficient of prim positive
@@ -544,6 +564,7 @@ def _normalise(n: Poly, d: Poly):
     if c != 1 or m:
         n = n.mul_mono(_minv(m), 1 / c)
         d = prim
+    d._canon = True
     if n == d:
         return ONE_P, ONE_P
     if len(n.t) >= len(d.t):
